@@ -202,9 +202,16 @@ def perturb_layout(rng, lay):
     import copy
     out = copy.deepcopy(lay)
     out["kind"] = "perturbed"
-    how = rng.choice(["length", "name", "edge", "width"])
+    how = rng.choice(["length", "name", "edge", "width", "order"])
     c = rng.randrange(len(out["edges"]))
     e = out["edges"][c]
+    if how == "order" and len(out["names"]) >= 2:
+        # the same chromosomes (names, lengths, bins) listed in another order: bin ids no longer
+        # denote the same loci
+        a, b = rng.sample(range(len(out["names"])), 2)
+        out["names"][a], out["names"][b] = out["names"][b], out["names"][a]
+        out["edges"][a], out["edges"][b] = out["edges"][b], out["edges"][a]
+        return out
     if how == "length":
         # same number of bins, one chromosome one base longer or shorter
         if e[-1] - e[-2] > 1 and rng.random() < 0.5:
@@ -284,6 +291,28 @@ def gen_c07(rng, fs, i, cfg):
     have1 = [("f2", p) for p in cooler_paths(fs, "f2")]
     if not have0:
         return None
+    if ctx.get("merged") and ctx["inputs"] and rng.random() < 0.10:
+        # an input is rewritten in place (same table, other pixels) after it has been merged once:
+        # later merges of the same URIs must see the new content
+        fid, path = rng.choice(ctx["inputs"])
+        node = fs.lookup(fid, path) if fid in fs.files else None
+        if node is not None and isinstance(node.coll, Coll):
+            spec = {c: str(node.coll.pixels[c].dtype) for c in node.coll.value_columns}
+            op = _same_layout_create(rng, cfg, lay, node.coll.symmetric, spec, cfg.get("maxpx", 40),
+                                     density=rng.choice([None, "dense", "diag"]))
+            op.update(file=fid, path=path, mode="a")
+            ctx["redo_merge"] = True
+            return op
+    if ctx.pop("redo_merge", None) and ctx.get("last_merge") is not None:
+        lm = ctx["last_merge"]
+        if all(fs.lookup(x["file"], x["path"]) is not None and x["file"] in fs.files for x in lm["inputs"]):
+            import copy as _copy
+            op = _copy.deepcopy(lm)
+            op["fault"] = None
+            op["mode"] = "a"
+            if rng.random() < 0.5:
+                op["path"] = "/again%d" % i
+            return op
     level2 = have1 and rng.random() < 0.45
     pool = have0 + (have1 if level2 else [])
     k = rng.randint(1, min(4, len(pool)))
@@ -318,6 +347,8 @@ def gen_c07(rng, fs, i, cfg):
         # an input (or output) open fails, possibly several times in a row: the merge may fail,
         # it must never return wrong data
         op["fault"] = {"kind": "F4", "open": rng.randint(0, 6 + 4 * len(ins)), "width": rng.choice([1, 1, 2, 3, 4])}
+    ctx["merged"] = True
+    ctx["last_merge"] = op
     return op
 
 
@@ -576,8 +607,25 @@ def gen_c09(rng, fs, i, cfg):
             zop["agg"] = {extra[0]: rng.choice(["max", "min"])}
             zop["cli"] = rng.random() < 0.5
             zop["fields_order"] = rng.sample(cols, len(cols))
+        if not zop["cli"] and rng.random() < 0.3:
+            zop["res_object"] = "keep"
         ctx["zop"] = zop
         return zop
+    if ctx["stage"] == 3 and ctx.get("zop") is not None and ctx["zop"].get("res_object") == "keep" \
+            and not ctx["zop"].get("fault") and rng.random() < 0.6:
+        # the caller hands the SAME list object of resolutions to a second zoomify over a base of
+        # another width (a coarsening of the ancestor) in another file
+        ctx["stage"] = 4
+        anc = fs.lookup(*ctx["anc"])
+        if anc is not None and isinstance(anc.coll, Coll) and anc.coll.binsize()[0] is not None:
+            c2, ok = coarsen_model(anc.coll, rng.choice([2, 3]))
+            if ok and c2.binsize()[0] is not None:
+                op = coll_to_create(c2)
+                op.update(file="f4", path="/", mode="a")
+                z2 = dict(ctx["zop"], bases=[{"file": "f4", "path": "/"}], file="f5", res_object="reuse",
+                          nproc=rng.choice([1, 2]), columns=None, agg=None, fields_order=None)
+                ctx["pending"] = [z2]
+                return op
     if ctx["stage"] == 3 and not ctx.get("two") and rng.random() < 0.35 and ctx.get("zop") is not None \
             and not ctx["zop"].get("fault") and not ctx["zop"].get("expect_refusal_same_file"):
         # the same process zoomifies ANOTHER matrix (other table of the same size) into the same
@@ -641,10 +689,20 @@ def gen_c06(rng, fs, i, cfg):
         rng.shuffle(recs)
         k = rng.randint(1, rng.choice([4, 6, 11]))
         parts = [[] for _ in range(k)]
-        # a pixel may appear once per chunk only (dupcheck): distribute greedily
+        # with the duplicate check switched off a chunk may hold the same pixel several times
+        # (they are summed like repeats across chunks); a chunk may then serve a merge epoch alone
+        # NOT generated (nodup stays False): duplicates inside a chunk are invalid input (rejected by
+        # the default validation, C13); with the validation switched off the unchanged tree itself
+        # fails as soon as a chunk holds more rows than there are distinct pixels (the temporary
+        # cooler's columns cannot grow beyond n(n+1)/2) - C06 promises nothing there (DESIGN 11.7)
+        nodup = False
+        # otherwise a pixel may appear once per chunk only (dupcheck): distribute greedily
         for rec in recs:
             order = list(range(k))
             rng.shuffle(order)
+            if nodup:
+                parts[order[0] if rng.random() < 0.5 else 0].append(rec)
+                continue
             for j in order:
                 if not any(x[0] == rec[0] and x[1] == rec[1] for x in parts[j]):
                     parts[j].append(rec)
@@ -660,6 +718,9 @@ def gen_c06(rng, fs, i, cfg):
         total = len(recs)
         op["unordered"] = dict(op["unordered"], mergebuf=rng.choice([1, 2, 3, 5, max(1, total // 2), total + 1, 20_000_000]),
                                max_merge=rng.choice([1, 2, 3, 4, 200]))
+        op["unordered"].pop("dupcheck", None)
+        if nodup:
+            op["unordered"]["dupcheck"] = False
         op["form"] = rng.choice(["iter", "iterdict"])
     else:
         r0 = rng.random()
@@ -979,10 +1040,17 @@ def gen_balance_options(rng, n, nchroms):
 
 def gen_c11(rng, fs, i, cfg):
     ctx = _ctx(cfg)
-    if i == 0 or "made" not in ctx:
+    redo = None
+    if i > 0 and "made" in ctx and ctx.get("support") is not None and rng.random() < 0.12:
+        # the path is rewritten with another matrix in the same process and balanced again:
+        # anything remembered per URI (and per span) from the earlier runs is stale now
+        redo = rng.choice(["values", "values", "support", "layout"])
+    if i == 0 or "made" not in ctx or redo:
         ctx["made"] = True
         lay = gen.gen_layout(rng, cfg.get("maxchroms", 3), cfg.get("maxbins", 7),
                              rng.choice(["fixed", "fixed", "variable", "fixed-exact", "mixed-one"]))
+        if redo in ("values", "support"):
+            lay = ctx["lay"]
         if rng.random() < 0.25:
             # Ensembl/NCBI style names that look like numbers ("1", "2", "03"): text files naming them
             # (a blacklist BED) must still be read as names
@@ -995,6 +1063,9 @@ def gen_c11(rng, fs, i, cfg):
         if n > 3 and rng.random() < 0.5:
             dead = rng.randrange(n)
             support = [p for p in support if dead not in p]
+        if redo == "values":
+            support = ctx["support"]      # same pixels (same nnz, same spans), other counts
+        ctx["lay"], ctx["support"] = lay, support
         vals = [rng.randint(1, 30) for _ in support]
         if rng.random() < 0.12:
             # counts that float32 cannot represent (odd values beyond 2**24)
@@ -1007,6 +1078,8 @@ def gen_c11(rng, fs, i, cfg):
               "chunks": [rec], "arraychunk": None, "h5opts": {"compression": None, "shuffle": False},
               "metadata": None, "assembly": None, "bin_extra": None, "fault": None,
               "file": "f0", "path": rng.choice(["/", "/m"]), "mode": "a"}
+        if redo:
+            op["path"] = ctx["dest"][1]
         ctx["dest"] = ("f0", op["path"])
         ctx["n"] = n
         ctx["nnz"] = len(support)
